@@ -15,7 +15,7 @@ from vf.data import Scenario
 PROPERTY = "C16"
 LEVEL = "model_checking"
 ASSUMPTIONS = ["each history starts from a freshly cooked engine (its own schema name)"]
-BUDGET_S = {"quick": 150, "thorough": 3000}
+BUDGET_S = {"quick": 600, "thorough": 3000}
 DEPTH = {"quick": 4, "thorough": 5}
 
 SDL = "type A { id: ID! a: Int } type Query { num: Int! color: String a: A hello(n: Int): String }"
